@@ -1,7 +1,8 @@
 (* C03 - property theorems: connections are isolated; events name the connection that
    caused them.  Proved for ALL interleavings (at request/response granularity) and all
    histories of the modelled services; refuted, with witnesses, where the code keeps
-   per-connection state on the shared service object. *)
+   per-connection state on the shared service object (ldap; ftp working directory; smtp
+   receive channel). *)
 From HT Require Import C03.Model C03.Check C03.Proofs.
 Open Scope N_scope.
 
@@ -80,24 +81,26 @@ Theorem C03_tftp_same_ip_boundary :
   obs 33 (run_outs tftp_step tftp_s0 tt (own 33 tftp_w1)) = ([5001], [mkEv 1 2]).
 Proof. exact tftp_same_ip_shares_limiter. Qed.
 
-(* ftp: what IS isolated - the replies (login state, reply codes, directories) as long as
-   the other sessions do not change directory; smtp: the replies, always *)
-Theorem C03_ftp_replies_isolated : forall i tr,
+(* ftp: the command channel and its pump are per connection; what remains shared is the
+   working directory.  Replies AND events are isolated as long as the other sessions do not
+   change directory; smtp: the replies, always *)
+Theorem C03_ftp_isolated_while_others_keep_directory : forall i tr,
   Forall (fun p : N * input => fst p = i \/ keeps_directory (snd p)) tr ->
-  replies_on i (svc_run SVC_FTP tr) = replies_on i (svc_run SVC_FTP (own i tr)).
-Proof. exact ftp_replies_isolated. Qed.
+  obs i (svc_run SVC_FTP tr) = obs i (svc_run SVC_FTP (own i tr)).
+Proof. exact ftp_isolated. Qed.
 
 Theorem C03_smtp_replies_isolated : forall i tr,
   replies_on i (svc_run SVC_SMTP tr) = replies_on i (svc_run SVC_SMTP (own i tr)).
 Proof. exact smtp_replies_isolated. Qed.
 
 
-(* replies are never delivered to another client by ftp, smtp or tftp (any state, any
-   interleaving); smtp's input-line events and all tftp events carry the stepping connection *)
-Theorem C03_ftp_replies_never_elsewhere : forall tr st k j x o,
+(* ftp and tftp: every reply of a step goes to, every event of a step carries, the stepping
+   connection (any state, any interleaving: ftp events name the connection that caused them);
+   smtp: replies and input-line events likewise *)
+Theorem C03_ftp_outputs_own : forall tr st k j x o,
   nth_error tr k = Some (j, x) -> nth_error (snd (run ftp_step st tr)) k = Some o ->
-  Forall (fun r : N * reply => fst r = j) (fst o).
-Proof. exact ftp_replies_never_elsewhere. Qed.
+  Forall (fun r : N * reply => fst r = j) (fst o) /\ Forall (fun e : N * ev => fst e = j) (snd o).
+Proof. exact ftp_outputs_own. Qed.
 
 Theorem C03_smtp_replies_and_line_events_own : forall tr st k j x o,
   nth_error tr k = Some (j, x) -> nth_error (snd (run smtp_step st tr)) k = Some o ->
@@ -109,6 +112,13 @@ Theorem C03_tftp_outputs_own : forall tr st k j x o,
   nth_error tr k = Some (j, x) -> nth_error (snd (run tftp_step st tr)) k = Some o ->
   Forall (fun r : N * reply => fst r = j) (fst o) /\ Forall (fun e : N * ev => fst e = j) (snd o).
 Proof. exact tftp_outputs_own. Qed.
+
+(* smtp: an event is only ever carried by a connection that is open at that moment (state
+   before the step neither "not accepted" nor "finished"); 0 = a choice the code cannot make *)
+Theorem C03_smtp_only_open_connections_carry : forall tr k j x o c e,
+  nth_error tr k = Some (j, x) -> nth_error (svc_run SVC_SMTP tr) k = Some o -> In (c, e) (snd o) ->
+  c = 0 \/ smtp_live (conns (fst (run smtp_step (mkSys [] (fun _ => 0)) (firstn k tr))) c) = true.
+Proof. exact (fun tr => smtp_only_open_connections_carry tr _ smtp_inv_initial). Qed.
 
 (* ---- the full statement is refuted for ldap, ftp, smtp (defects of the code) ---- *)
 
@@ -125,11 +135,6 @@ Theorem C03_ldap_login_reset_refuted :
   replies_on 34 (svc_run SVC_LDAP ldap_w1) = [2011053].
 Proof. exact ldap_login_reset. Qed.
 
-(* ftp: a command of B is reported with the address and session id of A, whose session is over *)
-Theorem C03_ftp_misattribution_refuted :
-  picks_possible [] ftp_w1 = true /\ event_elsewhere (svc_run SVC_FTP ftp_w1) ftp_w1 4 34 17.
-Proof. exact ftp_misattribution. Qed.
-
 (* ftp: A's CWD changes B's PWD; the directory even survives the session *)
 Theorem C03_ftp_shared_cwd_refuted :
   replies_on 34 (svc_run SVC_FTP ftp_w2) = [220000; 331000; 230000; 257001] /\
@@ -141,12 +146,30 @@ Theorem C03_ftp_cwd_survives_session_refuted :
   replies_on 34 (svc_run SVC_FTP (own 34 ftp_w3)) = [220000; 331000; 230000; 257000].
 Proof. exact ftp_cwd_survives_session. Qed.
 
-(* smtp: B's mail is reported under the address of A, which has quit and been closed *)
+(* smtp: B's mail is reported under the address of A, which is open and idle *)
 Theorem C03_smtp_misattribution_refuted :
   picks_possible [] smtp_w1 = true /\
-  conns (fst (run smtp_step (mkSys [] (fun _ => 0)) smtp_w1)) 17 = 5 /\
-  event_elsewhere (svc_run SVC_SMTP smtp_w1) smtp_w1 7 34 17.
+  conns (fst (run smtp_step (mkSys [] (fun _ => 0)) (firstn 6 smtp_w1))) 17 = 2 /\
+  event_elsewhere (svc_run SVC_SMTP smtp_w1) smtp_w1 6 34 17.
 Proof. exact smtp_misattribution. Qed.
+
+(* ---- once the proposed repairs (fixes/C03-*.patch) are applied, ldap, ftp and smtp keep all
+   session state per connection: their models become lifted local steps and the full
+   statement holds for them as well (these models are validated against the patched code,
+   and become the ones used by svc_run when the patches land) ---- *)
+Theorem C03_ftp_session_isolated : forall i tr,
+  obs i (run_outs (lift ftp_session_lstep) tt (ftp_c0, []) tr) =
+  obs i (run_outs (lift ftp_session_lstep) tt (ftp_c0, []) (own i tr)).
+Proof. exact (local_frame _ ftp_session_lstep (ftp_c0, [])). Qed.
+
+Theorem C03_smtp_session_isolated : forall i tr,
+  obs i (run_outs (lift smtp_session_lstep) tt 0 tr) = obs i (run_outs (lift smtp_session_lstep) tt 0 (own i tr)).
+Proof. exact (local_frame _ smtp_session_lstep 0). Qed.
+
+Theorem C03_ldap_session_isolated : forall i tr,
+  obs i (run_outs (lift ldap_session_lstep) tt (PH_NONE, false) tr) =
+  obs i (run_outs (lift ldap_session_lstep) tt (PH_NONE, false) (own i tr)).
+Proof. exact (local_frame _ ldap_session_lstep (PH_NONE, false)). Qed.
 
 (* ---- non-vacuity: interleaved sessions with observable output; the checker's own
    verdicts on model-generated observations ---- *)
@@ -171,7 +194,7 @@ Example C03_checker_verdicts :
         (map (fun o : outs => (fst o, map (fun e : N * ev => mkOE (fst e) (e_type (snd e)) (e_arg (snd e)) 0 (svc_port svc)) (snd o)))
              (svc_run svc tr)) in
   case_sigs (mk SVC_LDAP ldap_w1) = [SIG_REPLY_ELSEWHERE; SIG_REPLIES_DEPEND] /\
-  case_sigs (mk SVC_FTP ftp_w1) = [SIG_EVENT_ELSEWHERE] /\
+  case_sigs (mk SVC_SMTP smtp_w1) = [SIG_EVENT_ELSEWHERE] /\
   case_sigs (mk SVC_FTP ftp_w2) = [SIG_REPLIES_DEPEND] /\
   case_sigs (mk SVC_REDIS [(17, Open); (34, Open); (17, Tok 1 0 0); (34, Tok 2 0 0)]) = [].
 Proof. repeat split; vm_compute; reflexivity. Qed.
@@ -187,14 +210,17 @@ Print Assumptions C03_earlier_sessions_irrelevant.
 Print Assumptions C03_tftp_keyed_isolation.
 Print Assumptions C03_tftp_earlier_clients_irrelevant.
 Print Assumptions C03_tftp_same_ip_boundary.
-Print Assumptions C03_ftp_replies_isolated.
+Print Assumptions C03_ftp_isolated_while_others_keep_directory.
 Print Assumptions C03_smtp_replies_isolated.
-Print Assumptions C03_ftp_replies_never_elsewhere.
+Print Assumptions C03_ftp_outputs_own.
+Print Assumptions C03_smtp_only_open_connections_carry.
 Print Assumptions C03_smtp_replies_and_line_events_own.
 Print Assumptions C03_tftp_outputs_own.
 Print Assumptions C03_ldap_crosstalk_refuted.
 Print Assumptions C03_ldap_login_reset_refuted.
-Print Assumptions C03_ftp_misattribution_refuted.
 Print Assumptions C03_ftp_shared_cwd_refuted.
 Print Assumptions C03_ftp_cwd_survives_session_refuted.
 Print Assumptions C03_smtp_misattribution_refuted.
+Print Assumptions C03_ftp_session_isolated.
+Print Assumptions C03_smtp_session_isolated.
+Print Assumptions C03_ldap_session_isolated.
